@@ -426,6 +426,30 @@ VARIANTS = [
     {"name": "P1 converted slot addressed through a local", "file": MSGSER, "expect": "silent",
      "old": "            val = block[tmpl_var.name]\n            block[tmpl_var.name] = LLSDDataPacker.unpack(val, tmpl_var.type)\n",
      "new": "            slot = tmpl_var.name\n            block[slot] = LLSDDataPacker.unpack(block[slot], tmpl_var.type)\n"},
+    # ------------------------------------------------------------------ round 8
+    {"name": "R7 third-party notation parser shared at module level", "expect": "C12.R7",
+     "edits": [{"file": LLSD, "old": "def parse_notation(data: bytes):\n    return base_llsd.parse_notation(data)\n",
+                "new": "_NOTATION = base_llsd.serde_notation.LLSDNotationParser()\n\n\ndef parse_notation(data: bytes):\n    return _NOTATION.parse(data)\n"}]},
+    {"name": "P7 third-party notation parser built per call", "file": LLSD, "expect": "silent",
+     "old": "def parse_notation(data: bytes):\n    return base_llsd.parse_notation(data)\n",
+     "new": "def parse_notation(data: bytes):\n    return base_llsd.serde_notation.LLSDNotationParser().parse(data)\n"},
+    {"name": "R6 XML formatters collapse every str subclass onto str", "expect": "C12.R6",
+     "edits": [{"file": LLSD, "old": "class HippoLLSDXMLFormatter(base_llsd.serde_xml.LLSDXMLFormatter, HippoLLSDBaseFormatter):\n",
+                "new": "class _Widen:\n    def typeof(self, value):\n        for base in (bool, int, float, str, bytes):\n"
+                       "            if isinstance(value, base):\n                return base\n        return type(value)\n\n\n"
+                       "class HippoLLSDXMLFormatter(_Widen, base_llsd.serde_xml.LLSDXMLFormatter, HippoLLSDBaseFormatter):\n"}]},
+    {"name": "P6 XML formatters widen subclasses but list uri before str", "expect": "silent",
+     "edits": [{"file": LLSD, "old": "class HippoLLSDXMLFormatter(base_llsd.serde_xml.LLSDXMLFormatter, HippoLLSDBaseFormatter):\n",
+                "new": "class _Widen:\n    def typeof(self, value):\n        for base in (bool, int, float, uri, str, bytes):\n"
+                       "            if isinstance(value, base):\n                return base\n        return type(value)\n\n\n"
+                       "class HippoLLSDXMLFormatter(_Widen, base_llsd.serde_xml.LLSDXMLFormatter, HippoLLSDBaseFormatter):\n"}]},
+    {"name": "P1 IP pair named by a module constant in both tables", "expect": "silent",
+     "edits": [{"file": PACK, "old": "def _unpack_specs(cls):\n",
+                "new": "_IP_PAIR = (socket.inet_ntoa, socket.inet_aton)\n\n\ndef _unpack_specs(cls):\n"},
+               {"file": PACK, "old": "        MsgType.MVT_IP_ADDR: (socket.inet_ntoa, socket.inet_aton),\n        MsgType.MVT_IP_PORT",
+                "new": "        MsgType.MVT_IP_ADDR: _IP_PAIR,\n        MsgType.MVT_IP_PORT"},
+               {"file": PACK, "old": "        MsgType.MVT_IP_ADDR: (socket.inet_ntoa, socket.inet_aton),\n        # LLSD ints",
+                "new": "        MsgType.MVT_IP_ADDR: _IP_PAIR,\n        # LLSD ints"}]},
     # ------------------------------------------------------------------ documented limits
     {"name": "X quaternion packed with two components (count still accepted by the constructor)", "file": PACK, "expect": "miss",
      "old": "MsgType.MVT_LLQuaternion: _make_llsd_tuplecoord_spec(Quaternion, needed_elems=3)",
